@@ -36,7 +36,7 @@ class Seg(ConnFamily):
 
     def gen(self, rng: random.Random, n: int):
         shorts = [b"gemini://h/\r\n", b"titan://h/f;size=2\r\nab", b"titan://h/f;size=0\r\n", b"titan://h/f;size=2\r\nabXY", b"gemini://h/\r\nGARBAGE\r\n",
-                  b"\r\n", b"gemini://h/a\r", b"http://h/\r\n", b"titan://h/f;size=3\r\nab"]
+                  b"\r\n", b"gemini://h/a\r", b"http://h/\r\n", b"titan://h/f;size=3\r\nab", b"titan://h/f;size=11\r\nhello world", b"titan://h/f;size=9\r\n12345678"]
         first = list(self.share(range(len(shorts) * 2)))
         for j in range(n):
             i = first[j] if j < len(first) else len(shorts) * 2 + j
